@@ -10,6 +10,7 @@ from sa import speccov as SC
 from sa import agree as G
 from sa import order as OR
 from sa import purity as PU
+from sa import requests as RQ
 
 
 def _t(rule_fn, **kw):
@@ -38,12 +39,12 @@ FLOORS = {
     "T3g": 40, "T3a-req": 40, "T4a": 50, "T4b": 5, "T4c": 50, "T4d": 50, "T4e": 3, "T4f": 8,
     "T4g": 10, "T5": 8, "T3h": 50,
     # effect / ownership rules (write sites confirmed by reading conducting.py / machines.py)
-    "F1": 10, "F2": 10, "F3": 10, "F4": 8, "F5": 25, "F6": 3, "F7": 2, "F8": 8, "O1": 30,
+    "F1": 10, "F2": 10, "F3": 10, "F4": 8, "F5": 25, "F6": 3, "F7": 2, "F9": 200, "F10": 2, "F8": 8, "O1": 30,
     "O2": 6, "O3": 20, "S1": 20,
     "X1": 5, "X2": 40, "X3": 6,
-    "P1": 5, "P2": 5, "P3": 5, "P4": 2, "P5": 3, "P6": 9, "P7": 5,
-    "E7": 30, "U1": 5, "S2": 12, "S3": 15, "G1": 6, "S1b": 6, "M1": 2,
-    "N1": 25, "N2": 8, "O4": 3, "O5": 4, "O6": 2, "S4": 1, "S5": 3,
+    "P1": 3, "P2": 5, "P3": 5, "P4": 2, "P5": 3, "P6": 9, "P7": 5, "P8": 2, "P9": 1, "P10": 1,
+    "E7": 30, "U1": 5, "S2": 12, "S3": 15, "G1": 6, "G2": 5, "G3": 8, "S1b": 6, "M1": 2,
+    "N1": 25, "N2": 8, "O4": 3, "O5": 4, "O6": 2, "O7": 4, "V1": 10, "V2": 1, "S4": 1, "S5": 3, "S6": 10, "S7": 4, "S1c": 12,
 }
 
 PROPERTIES = {}
@@ -60,8 +61,8 @@ prop(
     anchor_modules=TABLE_MODS,
     rules=[_t(T.rule_T0), _t(T.rule_T1), _t(T.rule_T3a), _t(T.rule_T3c), _t(T.rule_T3d),
            _t(T.rule_T3e), _t(T.rule_T3g), _t(T.rule_T3a_req), _t(T.rule_T5), _t(T.rule_T4a),
-           E.rule_F4, X.rule_X3],
-    controls=[K.ctl_wf_inflight_to_resting, K.ctl_wf_drop_failed_cell],
+           E.rule_F4, E.rule_F7, G.rule_G2, X.rule_X3],
+    controls=[K.ctl_wf_inflight_to_resting, K.ctl_wf_drop_failed_cell, K.ctl_drop_join_check],
     exhaustive=True,
     explanation=(
         "Decides, cell by cell, the typestate clauses of C02 on the workflow transition table: "
@@ -71,7 +72,10 @@ prop(
         "and the oracles require: resting statuses only on events generated with nothing in "
         "flight; pausing/canceling only with something in flight; succeeded only on clean "
         "completion; an unhandled failure / fail command maps to failed in every row where it "
-        "can be looked up; requests are total. NOT decided: that every reachable combination of "
+        "can be looked up; requests are total; a table-driven completion is followed by the "
+        "unreachable-join check and its failed verdict is not overwritten afterwards (F7); the "
+        "status predicates the contextualisers rest on look at latest records only (G2). NOT "
+        "decided: that every reachable combination of "
         "task statuses over all histories is one of the abstract states (the abstraction is a "
         "superset), and per-history claims such as 'every task failure was handled'."),
     assumptions=[A1, A2, A_SPEC, A_AST],
@@ -123,15 +127,21 @@ prop(
     rules=[_t(T.rule_T3a, rows=("canceling",)), _t(T.rule_T3b, rows=("canceling",)),
            _t(T.rule_T3c, rows=("canceling",)), _t(T.rule_T3e), _t(T.rule_T3f),
            _t(T.rule_T3g), _t(T.rule_T3h, rows=("canceling",)), _t(T.rule_T4a), _t(T.rule_T4f),
-           P.rule_P2, P.rule_P7, G.rule_G1],
-    controls=[K.ctl_wf_canceling_to_succeeded],
+           P.rule_P2, P.rule_P7, P.rule_P10, E.rule_F10, G.rule_G1, G.rule_G2],
+    controls=[K.ctl_wf_canceling_to_succeeded, K.ctl_predicate_over_raw_sequence,
+              K.ctl_term_only_if_task_completed, K.ctl_override_on_canceled],
     exhaustive=True,
     explanation=(
         "Decides the table clauses of cancellation: canceling/canceled are not offering statuses "
         "and no table path leads from them to one (closure); in row canceling an event with "
         "something in flight keeps canceling, with nothing in flight ends canceled, and nothing "
         "maps to succeeded/running/paused; cancel is accepted from every non-terminal row; "
-        "with-items tasks receive the cancel and never complete with an item in flight. NOT "
+        "with-items tasks receive the cancel and never complete with an item in flight; 'a task "
+        "is canceled / canceling' is judged on the latest record of each task (G2); the record "
+        "whose event completes the workflow is marked terminal under that condition alone, so "
+        "a canceled workflow keeps a terminal record to render its output from (P10); the "
+        "unreachable-join override (status := failed) is guarded, at every site, by a condition "
+        "that excludes a workflow the table has just canceled (F10). NOT "
         "decided: 'not turned into failed merely because the cancellation kept joins from "
         "running' (needs the causal reason of an unreachable join)."),
     assumptions=[A1, A_SPEC, A_AST],
@@ -141,16 +151,20 @@ prop(
     "C12",
     anchor_modules=TABLE_MODS,
     rules=[_t(T.rule_T4a), _t(T.rule_T4b), _t(T.rule_T4c), _t(T.rule_T4d), _t(T.rule_T4f),
-           _t(T.rule_T4g), G.rule_G1],
-    controls=[K.ctl_task_active_completes],
+           _t(T.rule_T4g), G.rule_G1, P.rule_P8],
+    controls=[K.ctl_task_active_completes, K.ctl_concurrency_not_clamped],
     exhaustive=True,
     explanation=(
         "Decides the task-table clauses of with-items: the task never completes while another "
         "item is in flight; it succeeds only on a succeeded item with every other item "
         "succeeded; a failed/canceled item among dormant items never yields success; a "
         "pausing/canceling task never returns to running; the task reacts to every pause/cancel "
-        "request form; the last item ending always moves the task out of flight. NOT decided: "
-        "counts (all n offered, at most k at a time), which are arithmetic over run-time values."),
+        "request form; the last item ending always moves the task out of flight; in the window "
+        "computation a rendered concurrency <= 0 is normalised to 1 (decided at every sign case "
+        "of the comparison constants), items are offered only while availability > 0 and the "
+        "not-run items are cut to the first `availability` (P8). NOT decided: the counts "
+        "themselves (all n offered, at most k in flight across calls), which are arithmetic over "
+        "run-time values."),
     assumptions=[A_SPEC, A_AST],
 )
 
@@ -173,8 +187,10 @@ A_ABS = ("the abstract interpretation (sa.absint) over-approximates aliasing: on
 prop(
     "C04",
     anchor_modules=TABLE_MODS,
-    rules=[_t(T.rule_T0), _t(T.rule_T1), _t(T.rule_T3f), E.rule_F4, E.rule_F6, P.rule_P2],
-    controls=[K.ctl_unvalidated_status_write, K.ctl_rerun_write_before_reject],
+    rules=[_t(T.rule_T0), _t(T.rule_T1), _t(T.rule_T3f), E.rule_F4, E.rule_F6, P.rule_P2,
+           RQ.rule_F9, G.rule_G1],
+    controls=[K.ctl_unvalidated_status_write, K.ctl_rerun_write_before_reject,
+              K.ctl_silent_noop_request],
     explanation=(
         "Decides the structural clauses of 'terminal statuses are final': the terminal rows of "
         "the workflow table have no outgoing cell except succeeded->failed on an explicit failed "
@@ -184,7 +200,12 @@ prop(
         "writer than the table, the validated setter, the unreachable-join override and rerun "
         "(F4, every write site classified by value origin and guards); a status request or rerun "
         "request that is rejected has not written anything before the rejecting raise (F6, all "
-        "paths of the two request functions incl. callees). NOT decided: every suffix of events "
+        "paths of the two request functions incl. callees); the accept/reject verdict at the end of "
+        "request_workflow_status, evaluated for all 16^3 (requested, before, after) status "
+        "triples, rejects every request that changed nothing except the idempotent and the two "
+        "documented in-progress ones, and never raises after a change (F9); whether an item of a "
+        "with-items task is still in flight - which decides if its staged entry is kept for the "
+        "late reports - is judged against the whole ACTIVE category (G1). NOT decided: every suffix of events "
         "after termination at the level of histories."),
     assumptions=[A1, A_SPEC, A_ABS, A_AST],
 )
@@ -192,8 +213,9 @@ prop(
 prop(
     "C05",
     anchor_modules=ENGINE_MODS + ["graphing"],
-    rules=[E.rule_S1, G.rule_S1b, E.rule_O1, E.rule_O3, E.rule_F5, E.rule_F8],
-    controls=[K.ctl_share_record_lists, K.ctl_serialize_no_copy, K.ctl_drop_restore_of_attr],
+    rules=[E.rule_S1, G.rule_S1b, G.rule_S1c, E.rule_O1, E.rule_O3, E.rule_F5, E.rule_F8],
+    controls=[K.ctl_share_record_lists, K.ctl_serialize_no_copy, K.ctl_drop_restore_of_attr,
+              K.ctl_graph_restore_without_copy],
     explanation=(
         "Decides the structural core of 'persist/restore is unobservable': every attribute of "
         "WorkflowState / WorkflowConductor that the engine writes at run time is read by "
@@ -202,7 +224,8 @@ prop(
         "already stored elsewhere in it and mutated in place - JSON round-tripping breaks "
         "exactly that sharing (O1); serialize()/deserialize() and the getters hand out and take "
         "in deep copies only (O3); serialize() and the other queries write nothing (F5); the "
-        "composed graph is written only by the composer (F8). NOT decided: equality of all "
+        "composed graph is written only by the composer (F8); deserialize() of state, conductor "
+        "and graph wraps every part of the document it keeps in a deep copy (S1c). NOT decided: equality of all "
         "continuations of a live and a restored conductor; fidelity of ujson / networkx round "
         "trips for particular values."),
     assumptions=[A_ABS, A_AST],
@@ -211,15 +234,20 @@ prop(
 prop(
     "C06",
     anchor_modules=ENGINE_MODS,
-    rules=[E.rule_O2, E.rule_F2, G.rule_M1, P.rule_P3],
-    controls=[K.ctl_drop_ctx_copy],
+    rules=[E.rule_O2, E.rule_F2, G.rule_M1, P.rule_P3, P.rule_P6, PU.rule_V1, PU.rule_O7],
+    controls=[K.ctl_drop_ctx_copy, K.ctl_merge_skips_none],
     explanation=(
         "Decides one clause: isolation of the context store. A stored context delta is never "
         "written after it was appended, and no task context is built by mutating a stored delta "
         "(every merge_dicts call site reached from the API has a first argument that owns "
         "everything it references; merge_dicts itself only mutates its first argument). If this "
         "fails, a value published on one branch becomes visible to tasks that are not its "
-        "descendants. NOT decided: causal ancestry, supersession and arrival-order semantics of "
+        "descendants. Every variable published on a taken transition lands in the delta "
+        "whatever its value: finalize_context does not branch on rendered or inherited values "
+        "(V1) and merge_dicts overlays by key, not by value (O7) - a publish that is skipped "
+        "because the value 'did not change' loses the supersession the property describes; a "
+        "retried attempt is re-staged with the record's own context index list (P6). NOT "
+        "decided: causal ancestry, supersession and arrival-order semantics of "
         "the merged index lists (behavioural, over histories)."),
     assumptions=[A_ABS, A_AST],
 )
@@ -252,9 +280,10 @@ prop(
 prop(
     "C01",
     anchor_modules=ENGINE_MODS,
-    rules=[P.rule_P1, P.rule_P2, P.rule_P3, P.rule_P4],
+    rules=[P.rule_P1, P.rule_P2, P.rule_P3, P.rule_P4, P.rule_P9, PU.rule_V2, G.rule_G3],
     controls=[K.ctl_offer_completed_entries, K.ctl_stage_without_criteria,
-              K.ctl_keep_started_task_staged],
+              K.ctl_keep_started_task_staged, K.ctl_route_without_append,
+              K.ctl_falsy_result_dropped],
     explanation=(
         "Decides the necessary structural clauses of 'every execution is justified, exactly "
         "once': every task get_next_tasks returns is built by get_task(id, route) of an entry "
@@ -265,16 +294,21 @@ prop(
         "a start task, a retry re-stage, a rerun, or control-dependent on all(criteria) of that "
         "very transition evaluated against make_task_context(record, task_result) (P3); a "
         "started task is removed from staging before the task machine runs and a completed one "
-        "afterwards, with no extra condition (P4). NOT decided: the multiset equality between "
-        "executed tasks and what the definition prescribes over all graph shapes, outcome "
-        "assignments and completion orders; routes and cycle re-entry."),
+        "afterwards, with no extra condition (P4); a new route index is only ever the index of "
+        "the entry just appended to routes, never one found by searching the existing routes, "
+        "so two branches cannot come to share one identity (P9); the result the criteria are "
+        "evaluated on is the reported result itself on every path of make_task_result for a "
+        "task without items (V2). NOT decided: the multiset "
+        "equality between executed tasks and what the definition prescribes over all graph "
+        "shapes, outcome assignments and completion orders; cycle re-entry."),
     assumptions=[A_ABS, A_AST],
 )
 
 prop(
     "C07",
     anchor_modules=ENGINE_MODS + ["composers.native", "graphing"],
-    rules=[P.rule_P5, P.rule_P7, E.rule_F7, _e7_items, _t(T.rule_T3b), E.rule_O3],
+    rules=[P.rule_P5, P.rule_P7, E.rule_F7, _e7_items, _t(T.rule_T3b),
+           _t(T.rule_T3g, rows=("paused",)), E.rule_O3],
     controls=[K.ctl_join_always_ready, K.ctl_join_threshold, K.ctl_drop_join_check],
     explanation=(
         "Decides the structural clauses of the join barrier: the ready flag of a staged entry is "
@@ -285,7 +319,10 @@ prop(
         "the same route, >= requirement' with requirement = all inbound tasks for '*' else the "
         "graph node's barrier, and the composer sets a barrier only for join tasks ('*' iff "
         "join: all) (P7); every function that assigns a workflow status from the table and can "
-        "reach succeeded runs the unreachable-join check afterwards (F7). NOT decided: counting "
+        "reach succeeded runs the unreachable-join check afterwards (F7); a resume request on a "
+        "paused workflow with nothing in flight and nothing on offer completes it (so that the "
+        "check runs) instead of leaving it resuming for ever with an unready join staged (T3g, "
+        "row paused). NOT decided: counting "
         "per arrival order over histories; 'once per satisfaction' for join: N when further "
         "branches arrive after the join started (the engine has no construct for it)."),
     assumptions=[A_ABS, A_AST],
@@ -327,9 +364,10 @@ prop(
     "C15",
     anchor_modules=TABLE_MODS + ["specs.base", "specs.native.v1.models", "composers.native"],
     rules=[_t(T.rule_T0), _t(T.rule_T1), _t(T.rule_T5), OPT.rule_E7, SC.rule_S2, SC.rule_S3,
-           SC.rule_S4, SC.rule_S5, OPT.rule_U1],
+           SC.rule_S4, SC.rule_S5, SC.rule_S6, SC.rule_S7, OPT.rule_U1],
     controls=[K.ctl_unguarded_staged_deref, K.ctl_unguarded_task_name, K.ctl_drop_detector,
-              K.ctl_untracked_property],
+              K.ctl_untracked_property, K.ctl_validate_prefilter,
+              K.ctl_has_expressions_ignores_blocks],
     explanation=(
         "Decides structural clauses on both sides. Soundness of acceptance: no internal error on "
         "engine-generated events - every generated event name is an accepted one and both tables "
@@ -341,7 +379,11 @@ prop(
         "method, every engine command name is reserved (S2); every spec property that can carry "
         "an expression is in the class's _context_evaluation_sequence (S3); a task name read from "
         "a transition reaches a KeyError-raising accessor only under a has_task / membership "
-        "guard, so inspection does not crash on the fault it must report (U1). NOT decided: "
+        "guard, so inspection does not crash on the fault it must report (U1); the "
+        "language-neutral dispatch of expressions.base hands every string to the evaluators' own "
+        "has_expressions and never filters by the text itself (S6), and each evaluator's "
+        "has_expressions consults every recogniser its validate / evaluate apply to the text "
+        "(S7). NOT decided: "
         "execution of every accepted definition under every history; completeness of the "
         "regex-based variable extraction for every documented reference form."),
     assumptions=[A_AST, "E7 trusts the reviewed table (9 entries, each with its invariant)"],
@@ -350,16 +392,21 @@ prop(
 prop(
     "C17",
     anchor_modules=ENGINE_MODS,
-    rules=[_f6_rerun, _e7_rerun, E.rule_F4, G.rule_G1, _t(T.rule_T3d, rows=("resuming",)),
-           _t(T.rule_T3b, rows=("resuming",))],
-    controls=[K.ctl_rerun_write_before_reject, K.ctl_unguarded_staged_deref],
+    rules=[_f6_rerun, _e7_rerun, E.rule_F4, G.rule_G1, G.rule_G2, G.rule_G3,
+           _t(T.rule_T3d, rows=("resuming",)), _t(T.rule_T3b, rows=("resuming",))],
+    controls=[K.ctl_rerun_write_before_reject, K.ctl_unguarded_staged_deref,
+              K.ctl_predicate_over_raw_sequence, K.ctl_mixed_identity],
     explanation=(
         "Decides the structural clauses of rerun: the two rejections of request_workflow_rerun "
         "(workflow not completed; unknown task execution) precede every persistent write on "
         "every path, so a rejected rerun has no effect (F6); the staged entry and records used "
         "while preparing a rerun are dereferenced only when present (E7); the workflow status is "
         "forced to resuming only in the rerun path, under the completed-status precondition "
-        "(F4). NOT decided: 're-executes exactly the requested tasks', convergence to the clean "
+        "(F4); the status predicates the workflow machine consults after a rerun look at the "
+        "latest record of each task only, so superseded (failed / canceled) records do not "
+        "count (G2); the descendant search that resets term flags and collapses rerun requests "
+        "reads every (id, route) pair from one record (G3). NOT decided: 're-executes exactly "
+        "the requested tasks', convergence to the clean "
         "outcome, 'never stuck after an accepted rerun' (twin runs over histories)."),
     assumptions=[A_ABS, A_AST],
 )
@@ -367,15 +414,17 @@ prop(
 prop(
     "C14",
     anchor_modules=["composers.native", "graphing", "specs.native.v1.models"],
-    rules=[OR.rule_N2, P.rule_P7],
-    controls=[K.ctl_unsorted_start_tasks, K.ctl_join_threshold],
+    rules=[OR.rule_N2, P.rule_P7, G.rule_S1c],
+    controls=[K.ctl_unsorted_start_tasks, K.ctl_join_threshold, K.ctl_graph_restore_without_copy],
     explanation=(
         "Decides one clause: the composed graph does not depend on the declaration order of "
         "tasks, and the barrier attribute is composed exactly for join tasks ('*' iff join: all, "
         "else the declared count, stored unchanged by the graph) (P7). Every TaskMappingSpec method the composer uses (transitively) either does not "
         "iterate the task mapping or returns a value that is sorted by task name / is a boolean "
         "or a count, and the composer iterates only those sorted results and its own queue; the "
-        "graph is restored as a directed multigraph (call fact). NOT decided: exactness of nodes "
+        "graph is restored as a directed multigraph (call fact) from a deep copy of the persisted "
+        "document, so nothing of the restored graph stays shared with the document (S1c). NOT "
+        "decided: exactness of nodes "
         "and edges against the definition over all shapes (the split-tracking pruning of the "
         "composer is an algorithm whose correctness is semantic), fidelity of networkx edge keys."),
     assumptions=[A_AST],
@@ -385,15 +434,22 @@ prop(
     "C16",
     anchor_modules=["expressions.base", "expressions.yql", "expressions.jinja",
                     "expressions.functions.common", "conducting", "specs.native.v1.models"],
-    rules=[PU.rule_O4, PU.rule_O5, PU.rule_O6, E.rule_O2, E.rule_F2],
-    controls=[K.ctl_persist_internal_ctx, K.ctl_ctx_unfiltered, K.ctl_yaql_raw_context],
+    rules=[PU.rule_O4, PU.rule_O5, PU.rule_O6, PU.rule_O7, PU.rule_V1, PU.rule_V2, E.rule_O2,
+           E.rule_F2],
+    controls=[K.ctl_persist_internal_ctx, K.ctl_ctx_unfiltered, K.ctl_yaql_raw_context,
+              K.ctl_merge_skips_none, K.ctl_input_default_on_falsy],
     explanation=(
         "Decides the purity and hiding clauses: in every Evaluator.contextualize the caller's "
         "context reaches the template engine only through a converting / copying call (O4); no "
         "value that may carry double-underscore keys (__state, __current_task, __current_item) "
         "is appended to the persisted contexts or stored as the workflow output, and "
         "finalize_context strips such names from the outgoing context (O5); ctx() raises for a "
-        "double-underscore key and filters them from the unkeyed form (O6). NOT decided: "
+        "double-underscore key and filters them from the unkeyed form (O6); merge_dicts, through "
+        "which every context, input and publish passes, decides what to copy by key presence, "
+        "dict-ness and the overwrite flag only, never by the value (O7); the renderers of input, "
+        "vars, publish and output never branch on a rendered value, a runtime input value or a "
+        "value read from the context (V1), and make_task_result hands a reported result through "
+        "untested (V2). NOT decided: "
         "preservation of arbitrary JSON values through ujson, YAQL conversion and string "
         "interpolation (run-time values)."),
     assumptions=[A_ABS, A_AST],
@@ -481,7 +537,8 @@ TECHNIQUE = {
     "C03": "static typestate analysis of the folded transition tables (ast)",
     "C09": "static typestate analysis of the pause/resume rows (ast)",
     "C10": "static typestate analysis of the cancel rows and table closure (ast)",
-    "C12": "static typestate analysis of the task table over with-items event forms (ast)",
+    "C12": "static typestate analysis of the task table over with-items event forms (ast) + "
+           "sign-case evaluation and guard analysis of the concurrency window",
 }
 
 
